@@ -42,6 +42,22 @@ theorem amend_targets_in_dep_set (s : Ctx) (k : MKey) (m : Mod) (hm : s.allFind 
     exact List.mem_of_find?_eq_some htk
   exact depSetsCreate_closure s k tk m hm hs hti (nonSingle_of_data ht htd)
 
+/-- **… and they are flagged.**  After `lys_unres_dep_sets_create(ctx, …, k)` (dependency sets + "if there is a module to compile,
+    all the implemented modules of the dep set need to be recompiled"): when `k` is flagged `to_compile` — it is, `lys_implement`
+    sets the flag — every IMPLEMENTED target `tk` of its augments / deviations that has data is in a dependency set together with `k`
+    and is flagged `to_compile`: it is compiled with `k`, and it is what a recompilation driven by flags and dependency sets
+    (`lys_unres_glob_revert`) reaches. -/
+theorem targets_flagged_after_dep_sets (s : Ctx) (k : MKey) (m : Mod) (hm : s.allFind k = some m)
+    (hnew : m.compiled = none ∨ m.src.hasData = true ∨ m.src.feats ≠ [])
+    (tn : Bytes) (htn : tn ∈ m.src.augments ++ m.src.deviations) (tk : MKey) (htk : m.impKey tn = some tk)
+    (t : Mod) (ht : s.allFind tk = some t) (htd : t.src.hasData = true)
+    (hflag : s.flagged k = true) (hti : s.implAt tk = true) :
+    (∃ ds ∈ (depSetsM (some k) s).2.depSets, k ∈ ds ∧ tk ∈ ds) ∧ (depSetsM (some k) s).2.flagged tk = true := by
+  obtain ⟨ds, hds, hk, htkd⟩ := amend_targets_in_dep_set s k m hm hnew tn htn tk htk t ht htd
+  refine ⟨⟨ds, hds, hk, htkd⟩, ?_⟩
+  show ((depSetsCreate s (some k)).foldl markDepSet s).flagged tk = true
+  exact foldl_markDepSet_flags ds tk htkd _ s hds (List.any_eq_true.mpr ⟨k, hk, hflag⟩) hti
+
 open LyModel.Ctx.Ex in
 /-- non-vacuity: explicit-compile context, `aaa` implemented and compiled, then `ccc` (import + augment of `aaa`) parsed and marked
     implemented: `ccc` is not compiled, augments its import `aaa`, which has data — the hypotheses of the theorem — and the
@@ -50,7 +66,8 @@ example : let s := (run (runs (ctx0 [A, C] true) [.parse A none, .compile]) (.pa
     ((s.allFind (bs "ccc", [])).any fun m => m.compiled.isNone && (m.src.augments ++ m.src.deviations).contains (bs "aaa") &&
       (m.impKey (bs "aaa") == some (bs "aaa", []))) = true ∧
     ((s.allFind (bs "aaa", [])).any fun t => t.src.hasData && t.compiled.isSome) = true ∧
-    ((depSetsCreate s (some (bs "ccc", []))).any fun ds => ds.contains (bs "ccc", []) && ds.contains (bs "aaa", [])) = true :=
-  ⟨by decide +kernel, by decide +kernel, by decide +kernel⟩
+    ((depSetsCreate s (some (bs "ccc", []))).any fun ds => ds.contains (bs "ccc", []) && ds.contains (bs "aaa", [])) = true ∧
+    s.flagged (bs "ccc", []) = true ∧ s.implAt (bs "aaa", []) = true ∧ (depSetsM (some (bs "ccc", [])) s).2.flagged (bs "aaa", []) = true :=
+  ⟨by decide +kernel, by decide +kernel, by decide +kernel, by decide +kernel, by decide +kernel, by decide +kernel⟩
 
 end LyModel.Props.C09
